@@ -1157,7 +1157,10 @@ class FunctionBody:
         s = self.fp_struct(n, atoms)
         if fpx.weight(s) == 0:
             return None
-        return self.fp_emit(s, [self.expr(a) for a in atoms])
+        texts = [self.expr(a) for a in atoms]
+        if all(re.match(r'^\(?(DBL_EPSILON|DBL_MAX|DBL_MIN|G_\w+|[-0-9.xa-fp+]+)\)?$', t) for t in texts):
+            return None          # constant expression: stays concrete (the compiler folds it too)
+        return self.fp_emit(s, texts)
 
     def expr(self, n, stmt=False):
         k = n.get('kind')
